@@ -151,6 +151,36 @@ class Tap(object):
     next = __next__
 
 
+class Once(object):
+    """An iterable that is NOT an iterator (like a list): `iter()` hands out the counting source.  A stage that
+    calls iter() on its input more than once (or len() / indexing) is told apart from one that does not."""
+
+    def __init__(self, src):
+        self.src = src
+        self.iters = 0
+
+    def __iter__(self):
+        self.iters += 1
+        return self.src
+
+
+def wrap_source(kind, src):
+    """the KIND of object handed to the head stage: the raw iterator, a Stream, a generator, a non-iterator iterable"""
+    if kind == "stream":
+        return _al().Stream(src)
+    if kind == "gen":
+        return (v for v in src)
+    if kind == "iterable":
+        return Once(src)
+    return src
+
+
+# head stages that take a non-iterator iterable as a CONTAINER (documented): tee() returns the object n times,
+# resample / Streamix.add / operators cast with Stream() - all fine - but these iterate it more than once
+NO_ITERABLE_WRAP = {"tee"}
+WRAPS = ("raw", "raw", "stream", "gen", "iterable")
+
+
 class Ctx(object):
     """Per-case build context: the counting sources of the DECLARED auxiliary arguments."""
 
@@ -555,13 +585,44 @@ def _install():
             (lambda n: lambda p: {"m": "cascade", "n": n})(nst))
     reg("amdf", "s", "s", lambda rng, cx: {"lag": rng.choice([1, 2, 3, 1.5]), "size": rng.randint(1, 4)},
         lambda s, p, c: al.amdf(p["lag"], p["size"])(s), lambda p: {"m": "cascade", "n": 3})
-    reg("clip", "s", "s", lambda rng, cx: {"low": rng.choice([None, -2, -1]), "high": rng.choice([None, 1, 3])},
-        lambda s, p, c: al.clip(s, p["low"], p["high"]), SAMPLE)
+    # call SHAPES: positional / keyword / the source by keyword too / parameters omitted (their documented defaults)
+    SHAPES = ["pos", "kw", "allkw", "default"]
+
+    def b_clip(s, p, c):
+        sh = p.get("shape", "pos")
+        if sh == "default":
+            return al.clip(s)                                   # low=-1., high=1.
+        if sh == "kw":
+            return al.clip(s, low=p["low"], high=p["high"])
+        if sh == "allkw":
+            return al.clip(high=p["high"], sig=s, low=p["low"])
+        return al.clip(s, p["low"], p["high"])
+    reg("clip", "s", "s", lambda rng, cx: {"low": rng.choice([None, -2, -1]), "high": rng.choice([None, 1, 3]),
+                                           "shape": rng.choice(SHAPES)}, b_clip, SAMPLE)
+
+    def b_zcross(s, p, c):
+        sh = p.get("shape", "kw")
+        if sh == "default":
+            return al.zcross(s)                                 # hysteresis=0, first_sign=0
+        if sh == "pos":
+            return al.zcross(s, p["hyst"], p["first"])
+        if sh == "allkw":
+            return al.zcross(first_sign=p["first"], seq=s, hysteresis=p["hyst"])
+        return al.zcross(s, hysteresis=p["hyst"], first_sign=p["first"])
     reg("zcross", "s", "s",
-        lambda rng, cx: {"hyst": rng.choice([0, 1, 2, 20]), "first": rng.choice([0, 0, 1, -1])},
-        lambda s, p, c: al.zcross(s, hysteresis=p["hyst"], first_sign=p["first"]),
-        lambda p: {"m": "zcross", "known": p["first"] != 0})
-    reg("unwrap", "s", "s", NOP, lambda s, p, c: al.unwrap(s), lambda p: {"m": "first"})
+        lambda rng, cx: {"hyst": rng.choice([0, 1, 2, 20]), "first": rng.choice([0, 0, 1, -1]), "shape": rng.choice(SHAPES)},
+        b_zcross, lambda p: {"m": "zcross", "known": p["first"] != 0 and p.get("shape") != "default"})
+
+    def b_unwrap(s, p, c):
+        sh = p.get("shape", "default")
+        if sh == "pos":
+            return al.unwrap(s, al.pi, 2 * al.pi)
+        if sh == "kw":
+            return al.unwrap(s, max_delta=al.pi, step=2 * al.pi)
+        if sh == "allkw":
+            return al.unwrap(step=2 * al.pi, sig=s, max_delta=al.pi)
+        return al.unwrap(s)
+    reg("unwrap", "s", "s", lambda rng, cx: {"shape": rng.choice(SHAPES)}, b_unwrap, lambda p: {"m": "first"})
 
     # --- synth with stream arguments ---------------------------------------------------------------------
     MODC_ARGS = {"start": ("modulo", "step"), "modulo": ("start", "step"), "step": ("start", "modulo")}
@@ -629,9 +690,25 @@ def _install():
         return Stream(s).blocks(size=p["size"], hop=p["hop"], padval=0)
     reg("blocks", "s", "b", g_blocks, b_blocks,
         lambda p: {"m": "blocks", "size": p["size"], "hop": p["hop"] or p["size"]})
-    reg("zero_pad", "any", "same", lambda rng, cx: {"left": rng.randint(0, 6), "right": rng.randint(0, 3)},
-        lambda s, p, c: al.zero_pad(s, left=p["left"], right=p["right"], zero=([0] * (c.bsize or 3) if c.kind == "b" else 0)),
-        lambda p: {"m": "pad", "pre": p["left"], "post": p["right"]})
+    def g_zpad(rng, cx):
+        sp = lambda n: rng.choice([n, n, bool(n % 2)])            # range() takes ints and bools only
+        shape = rng.choice(SHAPES if cx.get("kind") != "b" else SHAPES[:3])
+        if shape == "default":
+            return {"left": 0, "right": 0, "shape": shape}
+        return {"left": sp(rng.randint(0, 6)), "right": sp(rng.randint(0, 3)), "shape": shape}
+
+    def b_zpad(s, p, c):
+        zero = [0] * (c.bsize or 3) if c.kind == "b" else 0
+        sh = p.get("shape", "kw")
+        if sh == "default" and c.kind != "b":
+            return al.zero_pad(s)                                 # left=0, right=0, zero=0.
+        if sh == "pos":
+            return al.zero_pad(s, p["left"], p["right"], zero)
+        if sh == "allkw":
+            return al.zero_pad(zero=zero, right=p["right"], seq=s, left=p["left"])
+        return al.zero_pad(s, left=p["left"], right=p["right"], zero=zero)
+    reg("zero_pad", "any", "same", g_zpad, b_zpad,
+        lambda p: {"m": "pad", "pre": int(p["left"]), "post": int(p["right"])})
 
     def g_ola(rng, cx):
         size = cx.get("bsize") or 3
@@ -671,9 +748,27 @@ def _install():
     def g_rs(rng, cx):
         old, new = rng.choice([(1, 2), (2, 1), (1, 1), (3, 2), (2, 3), (5, 2), (1, 4), (7, 3), (3, 7),
                                (rng.randint(1, 9), rng.randint(1, 9))])
-        return {"old": old, "new": new, "order": rng.randint(1, 6)}
-    reg("resample", "s", "s", g_rs,
-        lambda s, p, c: al.resample(s, old=F(p["old"]), new=F(p["new"]), order=p["order"], zero=0),
+        shape = rng.choice(["kw", "kw", "pos", "default-order", "default-all"])
+        if shape == "default-all":
+            return {"old": 1, "new": 1, "order": 3, "shape": shape, "num": "int"}
+        # floats only where old/new is a dyadic rational: the float step and its running sums are exact then
+        # (3./7. accumulates to 3.0000000000000004 after 7 steps and reads one item more: float arithmetic, not laziness)
+        nums = ["frac", "frac", "int", "float"] if new in (1, 2, 4, 8) else ["frac"]
+        return {"old": old, "new": new, "order": 3 if shape == "default-order" else rng.randint(1, 6), "shape": shape,
+                "num": rng.choice(nums)}
+
+    def b_rs(s, p, c):
+        num = {"frac": F, "int": int, "float": float}[p.get("num", "frac")]      # ints / small floats are exact too
+        old, new = num(p["old"]), num(p["new"])
+        sh = p.get("shape", "kw")
+        if sh == "default-all":
+            return al.resample(s)                                 # old=1, new=1, order=3, zero=0.
+        if sh == "default-order":
+            return al.resample(s, old, new)                       # order=3
+        if sh == "pos":
+            return al.resample(s, old, new, p["order"], 0)
+        return al.resample(s, old=old, new=new, order=p["order"], zero=0)
+    reg("resample", "s", "s", g_rs, b_rs,
         lambda p: {"m": "resample", "order": p["order"], "step": str(F(p["old"], p["new"]))})
 
     # time-varying step: old and/or new are Streams over counting sources with exact values
@@ -1368,7 +1463,8 @@ def generate(rng, tier, scale=1):
             chain = _gen_chain(rng, 1, only=name)
             K = 12 if i % 4 else rng.choice([0, 1, 40] if quick else [0, 1, 40, 200])
             for mode in MODES:
-                cases.append(dict({"entry": "reads", "chain": [dict(el) for el in chain], "k": K, "mode": mode,
+                wrap = rng.choice([w for w in WRAPS if not (w == "iterable" and name in NO_ITERABLE_WRAP)])
+                cases.append(dict({"entry": "reads", "chain": [dict(el) for el in chain], "k": K, "mode": mode, "wrap": wrap,
                               "slack": rng.choice([1, 2, 7, 30]), "vals": "pos" if R[name]["head_only"] or rng.random() < .3 else "signed"},
                                   **am()))
     # every stage with auxiliary (stream-valued) arguments x every kind of auxiliary source
@@ -1459,7 +1555,7 @@ def _build_chain(c, src, ctx, RUNAWAY):
     R = registry()
     taps = [src]
     kinds = _kinds(c["chain"])
-    cur = src
+    cur = wrap_source(c.get("wrap", "raw"), src)
     for i, el in enumerate(c["chain"]):
         ctx.kind, ctx.bsize = kinds[i]
         ctx.declare(i, R[el["st"]]["aux"](el["p"]))
@@ -1868,6 +1964,7 @@ def tally(eng, c, io):
         if "route" in el["p"] and el["st"].startswith("Stream."):
             eng.count("method_called_on", el["p"]["route"])
     eng.count("mode", c["mode"])
+    eng.count("head_source_object", c.get("wrap", "raw"))
     eng.count("depth", len(c["chain"]))
     eng.count("k", c["k"] if c["k"] <= 12 else ">12")
     for el in c["chain"]:
@@ -2029,6 +2126,8 @@ def shrink(c):
         cands += [dict(_strip(c), k=v) for v in sorted({1, c["k"] // 2, c["k"] - 1})]
     if c["mode"] not in ("finite", "drain"):
         cands.append(dict(_strip(c), mode="finite", slack=5))
+    if c.get("wrap", "raw") != "raw":
+        cands.append(dict(_strip(c), wrap="raw"))
     if c.get("amode", "endless") != "endless" and c["mode"] != "drain":
         cands.append(dict(_strip(c), amode="endless"))      # plain counting shows an over-read without a trip-wire
     cands += _param_cands(c)
@@ -2103,9 +2202,10 @@ def classify(c, io, drv):
         return c["entry"] + ":" + ("err:" + io["err"] if "err" in io else "over-read")
     names = [el["st"] for el in c["chain"]]
     if "err" in io:
-        if io["err"] == "RuntimeError" and "attack" in names and c["mode"] == "drain" and c["n"] == 0 and \
-                "StopIteration" in io.get("errmsg", ""):
-            return "attack:empty-sustain:err:RuntimeError"
+        if io["err"] == "RuntimeError" and "attack" in names and c["mode"] == "drain" and \
+                "StopIteration" in io.get("errmsg", "") and io.get("outs") == 0 and \
+                io.get("partial", [1] * len(names))[names.index("attack")] == 0:
+            return "attack:empty-sustain:err:RuntimeError"      # the stream in front of attack delivered nothing
         if io.get("aux_tripped"):
             own = [a[0] for a in io.get("aux", []) if a[2] in io["aux_tripped"]]
             return "%s:aux-%s:over-read" % (names[own[0]] if own else names[0], io["aux_tripped"][0])
